@@ -134,6 +134,26 @@ def run(ctx):
                 ctx.check((not raised) and abs(I2 - Iex) <= tol * float(np.prod(b - a)), 'func_sum_full:value', 'func_sum_full wrong on a symmetric box %s' % box, case=case)
             else:
                 ctx.check(raised, 'func_sum_full:box', 'func_sum_full must reject the non-symmetric box %s with ValueError' % box, case=case)
+        # --- boxes that are symmetric only approximately (one bound off by a relative 1e-9 .. 1e-5, magnitudes 1 and 250000):
+        # the dense integration routine either rejects them with ValueError or - if it accepts one - returns the integral
+        # over THAT box (half-widths (b - a) / 2)
+        wts_ = [np.array([0. if j_ % 2 else 2. / (1. - j_ * j_) for j_ in range(k_)]) for k_ in n]
+        for s_ in (1., 250000.):
+            for dl_ in (9e-6, 1e-6, -1e-7, 1e-9):
+                j_ = int(rng.integers(d))
+                a_, b_ = -s_ * np.ones(d), s_ * np.ones(d)
+                b_[j_] = s_ * (1. + dl_)
+                Iref, Iabs = np.array(C, dtype=float), np.abs(np.array(C, dtype=float))
+                for k_ in range(d):
+                    Iref = np.tensordot(wts_[k_] * (b_[k_] - a_[k_]) / 2., Iref, axes=(0, 0))
+                    Iabs = np.tensordot(np.abs(wts_[k_]) * (b_[k_] - a_[k_]) / 2., Iabs, axes=(0, 0))
+                ctx.case(key=('near-symmetric-box', tuple(n), s_, dl_, j_), nontrivial=True)
+                try:
+                    I3 = teneva.func_sum_full(np.array(C, dtype=float), a_, b_)
+                except ValueError:
+                    continue
+                ctx.check(abs(I3 - float(Iref)) <= 1e-10 * float(Iabs) + 1e-300, 'func_sum_full:box',
+                          'func_sum_full accepts the box a=%s, b=%s (not symmetric) and returns %r, the integral over this box is %r' % (a_.tolist(), b_.tolist(), I3, float(Iref)))
         # --- re-sampling and interpolation: Interp(Sample_m(c)) = pad(c)
         for m_ in ([n, [k + 1 for k in n], [2 * k for k in n]] if True else []):
             if d >= 2:
